@@ -163,7 +163,7 @@ arr_real resample(const arr_real& x, int p_, int q_, const arr_real& h) {
 
     FIRResampler rsmp(p, q, h);
     const int nx = IResampler::next_size(x.size(), p, q);
-    const int ny = nx * p / q;
+    const int ny = nx / q * p;   //`nx` is a multiple of `q`; dividing first cannot overflow
     const int dl = rsmp.delay();
     const int mdl = (dl * q + p - 1) / p;   //input samples needed for `dl` more output samples (rounded up)
     const int nn = IResampler::next_size(nx + mdl, p, q);
